@@ -186,9 +186,12 @@ def external_diff_render(cmd, a, b):
         output, errors = p.communicate()
         status = p.returncode
         output = output.decode('utf8')
-        r = re.compile(r"^\\ No newline at end of file\n?", flags=re.M)
-        output, n = r.subn("", output)
-        assert n <= 2, 'unexpected output from external diff renderer'
+        if '--color-words' not in cmd:
+            # Word diffs carry no such markers (and no line prefixes),
+            # so a match there would be part of the compared text.
+            r = re.compile(r"^\\ No newline at end of file\n?", flags=re.M)
+            output, n = r.subn("", output)
+            assert n <= 2, 'unexpected output from external diff renderer'
     finally:
         shutil.rmtree(td)
     return output, status
